@@ -332,15 +332,27 @@ class _Expander:
     def _instantiate(self, h, call, caller_names, make_result, keep_returns=False, result_name=None):
         mapping, prologue, renames = self._bind(h, call, caller_names)
         if result_name is not None:
-            # `T = helper(..)` where the helper ends in `return V` (V a local of its own): V simply is T
+            # `T = helper(..)` where the helper ends in `return V` (V a local of its own): V simply is T;
+            # likewise `T1, T2 = helper(..)` with `return V1, V2`
             rets = [x for x in _own(h.node, ast.Return)]
             hb = h.body()
-            if len(rets) == 1 and hb and hb[-1] is rets[0] and isinstance(rets[0].value, ast.Name):
-                v = rets[0].value.id
+            tnames = result_name if isinstance(result_name, list) else [result_name]
+            if len(rets) == 1 and hb and hb[-1] is rets[0]:
+                rv = rets[0].value
+                vals = [rv] if not isinstance(result_name, list) else (list(rv.elts) if isinstance(rv, ast.Tuple) else [])
                 stored = {n.id for n in _own(h.node, ast.Name) if isinstance(n.ctx, ast.Store)}
-                if v in stored and v not in mapping and result_name not in (stored - {v}) and result_name not in mapping \
-                        and result_name not in (set(h.params) | set(h.kwonly)):
-                    renames[v] = result_name
+                if len(vals) == len(tnames):
+                    for tn, v in zip(tnames, vals):
+                        if not isinstance(v, ast.Name):
+                            continue
+                        if v.id == tn:
+                            if v.id in stored and v.id not in (set(h.params) | set(h.kwonly)):
+                                renames.pop(v.id, None)  # the helper's local and the target are one variable
+                            continue
+                        v = v.id
+                        if v in stored and v not in mapping and tn not in (stored - {v}) and tn not in mapping \
+                                and tn not in (set(h.params) | set(h.kwonly)) and tn not in renames.values():
+                            renames[v] = tn
         body = [copy.deepcopy(s) for s in h.body()]
         sub = _SubstNames(mapping, renames)
         body = [sub.visit(s) for s in body]
@@ -496,11 +508,24 @@ class _Expander:
                         def mk(v, targets=targets, s=s):
                             val = v if v is not None else ast.Constant(value=None)
                             return [ast.copy_location(ast.Assign(targets=copy.deepcopy(targets), value=val), s)]
-                        rn = targets[0].id if len(targets) == 1 and isinstance(targets[0], ast.Name) else None
+                        rn = None
+                        if len(targets) == 1 and isinstance(targets[0], ast.Name):
+                            rn = targets[0].id
+                        elif len(targets) == 1 and isinstance(targets[0], ast.Tuple) and all(isinstance(e, ast.Name) for e in targets[0].elts):
+                            rn = [e.id for e in targets[0].elts]
                         produced = self._instantiate(h, s.value, names, mk, result_name=rn)
-                        produced = [p_ for p_ in produced if not (isinstance(p_, ast.Assign) and len(p_.targets) == 1
-                                                                   and isinstance(p_.targets[0], ast.Name) and isinstance(p_.value, ast.Name)
-                                                                   and p_.targets[0].id == p_.value.id)]
+
+                        def self_assign(p_):
+                            if not (isinstance(p_, ast.Assign) and len(p_.targets) == 1):
+                                return False
+                            t_, v_ = p_.targets[0], p_.value
+                            if isinstance(t_, ast.Name) and isinstance(v_, ast.Name):
+                                return t_.id == v_.id
+                            if isinstance(t_, ast.Tuple) and isinstance(v_, ast.Tuple) and len(t_.elts) == len(v_.elts):
+                                return all(isinstance(a, ast.Name) and isinstance(b, ast.Name) and a.id == b.id
+                                           for a, b in zip(t_.elts, v_.elts))
+                            return False
+                        produced = [p_ for p_ in produced if not self_assign(p_)]
                         if not _always_returns(h.body()):
                             # falling off the end returns None
                             if _has_return(h.body()):
@@ -980,19 +1005,18 @@ def inline_new_temporaries(trees):
         return 0
     n = 0
 
-    def first_evaluated(stmt, name):
-        """is the (single) load of `name` evaluated before anything that could have an effect?"""
-        v = None
-        if isinstance(stmt, ast.Return):
-            v = stmt.value
-        elif isinstance(stmt, ast.Expr):
-            v = stmt.value.value if isinstance(stmt.value, (ast.Yield, ast.YieldFrom, ast.Await)) else stmt.value
-        elif isinstance(stmt, ast.Assign):
-            v = stmt.value
-        if v is None:
-            return False
+    def leftmost(v, name):
+        """the load of `name` is the first thing the expression evaluates that is not a plain name / chain"""
         if isinstance(v, ast.Name):
             return v.id == name
+        if isinstance(v, ast.Compare):
+            return leftmost(v.left, name) or (_stable(v.left) and leftmost(v.comparators[0], name))
+        if isinstance(v, ast.BoolOp):
+            return leftmost(v.values[0], name)
+        if isinstance(v, ast.UnaryOp):
+            return leftmost(v.operand, name)
+        if isinstance(v, ast.BinOp):
+            return leftmost(v.left, name) or (_stable(v.left) and leftmost(v.right, name))
         if isinstance(v, ast.Call):
             parts = [v.func] + list(v.args) + [k.value for k in v.keywords]
             for p_ in parts:
@@ -1001,6 +1025,21 @@ def inline_new_temporaries(trees):
                 if not _stable(p_) and not (isinstance(p_, ast.Attribute) and _stable(p_.value)):
                     return False
         return False
+
+    def first_evaluated(stmt, name):
+        """is the (single) load of `name` evaluated before anything that could have an effect?"""
+        v = None
+        if isinstance(stmt, ast.If):
+            return leftmost(stmt.test, name)
+        if isinstance(stmt, ast.Return):
+            v = stmt.value
+        elif isinstance(stmt, ast.Expr):
+            v = stmt.value.value if isinstance(stmt.value, (ast.Yield, ast.YieldFrom, ast.Await)) else stmt.value
+        elif isinstance(stmt, ast.Assign):
+            v = stmt.value
+        if v is None:
+            return False
+        return leftmost(v, name)
 
     for rel, tree in trees.items():
         for parts, fn in alpha.walk_functions(tree):
@@ -1030,7 +1069,11 @@ def inline_new_temporaries(trees):
                     if (isinstance(s, ast.Assign) and len(s.targets) == 1 and isinstance(s.targets[0], ast.Name) and nxt is not None):
                         x = s.targets[0].id
                         if x not in known and x not in params and counts.get(x) == [1, 1] and first_evaluated(nxt, x):
-                            new = _SubstNames({x: s.value}, {}).visit(nxt)
+                            if isinstance(nxt, ast.If):
+                                nxt.test = _SubstNames({x: s.value}, {}).visit(nxt.test)
+                                new = nxt
+                            else:
+                                new = _SubstNames({x: s.value}, {}).visit(nxt)
                             out.append(new)
                             n += 1
                             i += 2
@@ -1041,3 +1084,165 @@ def inline_new_temporaries(trees):
             fn.body = rewrite(fn.body)
         ast.fix_missing_locations(tree)
     return n
+
+
+# --------------------------------------------------------------------------------------------- flags
+def thread_new_flags(trees):
+    """A new local that is assigned as the last statement of every branch of an if-chain and only tested by the
+    `if flag:` (no else) that follows the chain is a merged tail: the tested body is put back into each branch
+    under the branch's own expression (`flag = E` -> `if E: BODY`; `flag = False` -> nothing)."""
+    ref = alpha.load_ref()
+    fref = load_func_ref()
+    if fref is None:
+        return 0
+    n = 0
+
+    def leaves(chain):
+        """[(statement list, index of last statement)] of every leaf branch; None if a branch is missing"""
+        out = []
+        if not chain.orelse:
+            return None
+        for br in (chain.body, chain.orelse):
+            if len(br) == 1 and isinstance(br[0], ast.If) and br is chain.orelse:
+                sub = leaves(br[0])
+                if sub is None:
+                    return None
+                out += sub
+            else:
+                if not br:
+                    return None
+                out.append(br)
+        return out
+
+    for rel, tree in trees.items():
+        for parts, fn in alpha.walk_functions(tree):
+            k = alpha.function_key(rel, parts)
+            if k not in fref:
+                continue
+            known = set((ref.get(k) or {}).values())
+            params = alpha.params_of(fn)
+            counts = {}
+            for y in _own(fn, ast.Name):
+                d = counts.setdefault(y.id, [0, 0])
+                d[0 if isinstance(y.ctx, ast.Store) else 1] += 1
+
+            def rewrite(stmts):
+                nonlocal n
+                out = []
+                i = 0
+                while i < len(stmts):
+                    s = stmts[i]
+                    for fld in ("body", "orelse", "finalbody"):
+                        b = getattr(s, fld, None)
+                        if isinstance(b, list) and b and isinstance(b[0], ast.stmt):
+                            setattr(s, fld, rewrite(b))
+                    for h in getattr(s, "handlers", []) or []:
+                        h.body = rewrite(h.body)
+                    nxt = stmts[i + 1] if i + 1 < len(stmts) else None
+                    if isinstance(s, ast.If) and isinstance(nxt, ast.If) and isinstance(nxt.test, ast.Name) and not nxt.orelse:
+                        f = nxt.test.id
+                        lv = leaves(s)
+                        if (lv and f not in known and f not in params and counts.get(f) == [len(lv), 1]
+                                and all(isinstance(b[-1], ast.Assign) and len(b[-1].targets) == 1 and isinstance(b[-1].targets[0], ast.Name)
+                                        and b[-1].targets[0].id == f for b in lv)):
+                            for b in lv:
+                                e = b[-1].value
+                                if isinstance(e, ast.Constant) and not e.value:
+                                    b[-1:] = [] if len(b) > 1 else [ast.copy_location(ast.Pass(), b[-1])]
+                                elif isinstance(e, ast.Constant) and e.value:
+                                    b[-1:] = copy.deepcopy(nxt.body)
+                                else:
+                                    b[-1] = ast.copy_location(ast.If(test=e, body=copy.deepcopy(nxt.body), orelse=[]), b[-1])
+                            out.append(s)
+                            n += 1
+                            i += 2
+                            continue
+                    out.append(s)
+                    i += 1
+                return out
+            fn.body = rewrite(fn.body)
+        ast.fix_missing_locations(tree)
+    return n
+
+
+# --------------------------------------------------------------------------------------------- new module constants
+CONST_REF_FILE = os.path.join(os.path.dirname(os.path.abspath(__file__)), "constants_ref.json")
+_CREF = None
+
+
+def load_const_ref():
+    global _CREF
+    if _CREF is None:
+        try:
+            with open(CONST_REF_FILE) as fh:
+                _CREF = {k: set(v) for k, v in json.load(fh).items()}
+        except Exception:
+            _CREF = None
+    return _CREF
+
+
+def _module_constants(tree):
+    out = {}
+    for s in tree.body:
+        if isinstance(s, ast.Assign) and len(s.targets) == 1 and isinstance(s.targets[0], ast.Name):
+            out.setdefault(s.targets[0].id, []).append(s)
+    return out
+
+
+def build_constant_reference(root, pkg="flumine"):
+    out = {}
+    pkgdir = os.path.join(root, pkg)
+    for dp, dn, fns in sorted(os.walk(pkgdir)):
+        dn.sort()
+        for f in sorted(fns):
+            if f.endswith(".py"):
+                path = os.path.join(dp, f)
+                rel = os.path.relpath(path, root)
+                out[rel] = sorted(_module_constants(ast.parse(open(path, encoding="utf-8").read())))
+    return out
+
+
+def _literal(e):
+    if isinstance(e, ast.Constant):
+        return True
+    if isinstance(e, (ast.List, ast.Tuple, ast.Set)):
+        return all(_literal(x) for x in e.elts)
+    if isinstance(e, ast.Attribute):   # OrderStatus.EXECUTABLE and the like
+        return _stable(e)
+    return False
+
+
+def inline_new_constants(trees):
+    """a module-level name that is new relative to the reference, bound once to a literal (constants, enum
+    members, lists / tuples / sets of them) and never written or mutated, is replaced by the literal where the
+    module's functions read it (a duplicated literal hoisted to a constant reads as the literal again)"""
+    cref = load_const_ref()
+    if cref is None:
+        return {}
+    applied = {}
+    mut = {"append", "extend", "insert", "pop", "remove", "clear", "update", "add", "discard", "sort", "reverse"}
+    for rel, tree in trees.items():
+        known = cref.get(rel, set())
+        consts = _module_constants(tree)
+        for name, defs in consts.items():
+            if name in known or len(defs) != 1 or not _literal(defs[0].value):
+                continue
+            bad = False
+            for n in ast.walk(tree):
+                if isinstance(n, ast.Name) and n.id == name and isinstance(n.ctx, (ast.Store, ast.Del)) and n is not defs[0].targets[0]:
+                    bad = True
+                if isinstance(n, ast.Call) and isinstance(n.func, ast.Attribute) and n.func.attr in mut \
+                        and isinstance(n.func.value, ast.Name) and n.func.value.id == name:
+                    bad = True
+                if isinstance(n, (ast.Global, ast.Nonlocal)) and name in n.names:
+                    bad = True
+            if bad:
+                continue
+            for parts, fn in alpha.walk_functions(tree):
+                if name in alpha.params_of(fn) or name in alpha.local_names(fn):
+                    continue
+                sub = _SubstNames({name: defs[0].value}, {})
+                fn.body = [sub.visit(st) for st in fn.body]
+            applied.setdefault(rel, []).append(name)
+        ast.fix_missing_locations(tree)
+    return applied
